@@ -111,6 +111,11 @@ def guard_family():
                 out.append(prog + [yield_(Y, comp="after")])
     out.append([assign("a", ["pow", ["pow", Y, C(2)], C(3)]), yield_(V("a"), comp="a"),
                 assign("b", ["pow", C(2), ["pow", Y, C(2)]]), yield_(V("b"), comp="b")])
+    # the textual forms of the builder API: if_("lhs", "<", "rhs") and if_("lhs < rhs")
+    for form in ("str3", "str1"):
+        for cond in (CMP("<", Y, C(2)), CMP(">=", S(Y, V("<dt>")), V("<dt>")), CMP("==", Y, S(V("<dt>"), C(1)))):
+            out.append([dict(if_(cond), form=form), assign("<state>y", S(Y, C(5))), yield_(Y, comp="in"), {"op": "endif"},
+                        {"op": "else"}, yield_(Y, comp="else"), {"op": "endelse"}, yield_(Y, comp="after")])
     # nested conditionals followed by an else branch: else_ negates the flag of the if_ block closed last (the outer one)
     conds = [CMP("<", Y, C(2)), CMP(">=", Y, C(2)), CMP("<", Y, C(100))]
     E = {"op": "endif"}
